@@ -208,7 +208,33 @@ func (s *signal) hasParentMuxSig() bool {
 	return s.parentMuxSig != nil
 }
 
+// verifySizeAmount checks whether the size of the signal can change by the given amount
+// in all the layouts the signal is part of.
+func (s *signal) verifySizeAmount(amount int) error {
+	if s.hasParentMuxSig() {
+		return s.parentMuxSig.verifySignalSizeAmount(s.EntityID(), amount)
+	}
+
+	if s.hasParentMsg() {
+		return s.parentMsg.verifySignalSizeAmount(s.EntityID(), amount)
+	}
+
+	return nil
+}
+
+// regenerateFilters regenerates the filters of the message layout the signal is part of.
+// It must be called after the size of the signal changed.
+func (s *signal) regenerateFilters() {
+	if s.hasParentMsg() {
+		s.parentMsg.signalLayout.generateFilters()
+	}
+}
+
 func (s *signal) modifySize(amount int) error {
+	if err := s.verifySizeAmount(amount); err != nil {
+		return err
+	}
+
 	if s.hasParentMuxSig() {
 		return s.parentMuxSig.modifySignalSize(s.EntityID(), amount)
 	}
@@ -476,6 +502,8 @@ func (ss *StandardSignal) SetType(typ *SignalType) error {
 
 	typ.addRef(ss)
 
+	ss.regenerateFilters()
+
 	return nil
 }
 
@@ -609,6 +637,8 @@ func (es *EnumSignal) SetEnum(enum *SignalEnum) error {
 	es.enum = enum
 
 	enum.addRef(es)
+
+	es.regenerateFilters()
 
 	return nil
 }
